@@ -29,16 +29,16 @@ THEOREMS = {
             "Rot.C14_index_append_restart_recovers", "Rot.C14_limit", "Rot.C14_unrelated_untouched",
             "Rot.C14_dated_run_partial", "Rot.C14_F14_nonmonotone_order_fails", "Rot.C14_F15_restart_bound_fails",
             "Rot.C14_F16_lowered_max_never_shrinks", "Rot.rotate_index", "Rot.restart_inv", "Rot.applyMoves_get",
-            "Obligations.rot_extraction_complete", "Obligations.rot_facts_hold", "Obligations.rot_defaults", "Obligations.rot_enums",
+            "Obligations.rot_extraction_complete", "Obligations.rot_size_facts_hold", "Obligations.rot_defaults", "Obligations.rot_enums",
             "Obligations.C14_extracted"],
     "C15": ["Rot.C15_grid", "Rot.C15_grid_least", "Rot.C15_first_point", "Rot.C15_separates", "Rot.C15_shares",
             "Rot.C15_suffix_of_opening_instant", "Rot.C15_composes_with_C14", "Rot.C15_F9_record_anchored_breaks_grid",
             "Rot.advance_loop", "Rot.gridInv_step",
-            "Obligations.rot_extraction_complete", "Obligations.rot_facts_hold", "Obligations.rot_advances_from_schedule",
+            "Obligations.rot_time_extraction_complete", "Obligations.rot_time_facts_hold", "Obligations.rot_advances_from_schedule",
             "Obligations.C15_extracted"],
 }
 MODULES = {"C14": ["QuillModel.Props.C14"], "C15": ["QuillModel.Props.C15"]}
-OBLIG = ["QuillModel.Obligations.Rot"]
+OBLIG = {"C14": ["QuillModel.Obligations.RotSize"], "C15": ["QuillModel.Obligations.RotTime"]}
 
 C14_ORACLES = ("dup-id", "torn", "not-in-cur", "order", "not-suffix", "over-limit", "backup-bound", "backup-shrink")
 C15_ORACLES = ("time-merge", "time-split", "suffix", "grid", "dst-drift")
@@ -56,7 +56,7 @@ FINDING_TEXT = {
 def oracle_fields(line):
     w = line.split()
     d = {"kind": w[1]}
-    for x in w[2:9]:
+    for x in w[2:10]:
         if "=" in x:
             k, v = x.split("=", 1)
             d[k] = v
@@ -73,7 +73,7 @@ def classify(line):
         return "F14"
     if sch in ("D", "T") and f.get("unrecovered") == "1" and k in ("not-suffix", "backup-bound", "backup-shrink"):
         return "F15"
-    if sch == "I" and k == "backup-shrink":
+    if k == "backup-shrink" and f.get("overstart") == "1":
         return "F16"
     return None
 
@@ -141,7 +141,7 @@ def run(prop, tier):
         "timestamps are natural numbers of nanoseconds (no uint64 wrap); the zone is a constant UTC offset in the theorems (mktime = local seconds − offset)",
         "names are structured values (suffix, index) in the theorems; their rendering (strftime %Y%m%d[_%H%M%S]) is compared by the harness",
     ]
-    ps = ck.proof_side(MODULES[prop], THEOREMS[prop], OBLIG)
+    ps = ck.proof_side(MODULES[prop], THEOREMS[prop], OBLIG[prop])
     ex = ck.extracted
     for b in ps["broken"]:
         ck.log("PROOF SIDE BROKEN: " + b)
@@ -225,10 +225,11 @@ def run(prop, tier):
     # ---- verdicts --------------------------------------------------------------------------------
     if st["hits"]:
         # prefer a hit outside every finding class; otherwise the first unlisted finding
-        st["hits"].sort(key=lambda h: (h[4] is not None,))
+        f9 = not ex.get("rot", {}).get("advancesFromSchedule", True)
+        st["hits"].sort(key=lambda h: (not (f9 and "f9_daily_gap" in h[0]), h[4] is not None))
         label, ln, c, i, fid = st["hits"][0]
         content = "# %s\n# property oracle on the real code: %s\n# replay: python3 tools/check.py %s --replay <this file>\n%s" % (
-            label, ln, prop, ops_only(c, i))
+            label, ln, prop, ops_only(c))
         what = ("finding %s (%s), not listed in known_findings.json" % (fid, FINDING_TEXT[fid])) if fid else "property fails on the real code"
         ck.violation("oracle" + ("_" + fid if fid else ""), content, "%s: %s (%d oracle hits in this run)" % (what, ln[:400], len(st["hits"])))
     if st["mism"] and not st["hits"]:
@@ -260,7 +261,8 @@ def run(prop, tier):
         "cases_skipped_by_driver_dst_zone": st["skipped_dst"],
         "harness_stats": st["stats"][-4:],
         "extracted": {"advancesFromSchedule": r.get("advancesFromSchedule"), "minLimit": r.get("minLimit"),
-                      "facts_false": [k for k, v in r.get("facts", {}).items() if not v], "facts": len(r.get("facts", {}))},
+                      "facts_false": [k for k, v in r.get("sizeFacts" if prop == "C14" else "timeFacts", {}).items() if not v],
+                      "facts": len(r.get("sizeFacts" if prop == "C14" else "timeFacts", {}))},
         "mismatching_lines": len(st["mism"]),
         "oracle_hits_unlisted": len(st["hits"]),
         "oracle_hits_known_classes": {k: len(v) for k, v in st["known_hits"].items()},
